@@ -770,7 +770,9 @@ class GRPEngine(Engine):
         w = self.world
         if not self.started or self.stop_called_tick is not None or self.start_watch.state != "pending":
             return
-        if w.pending() or w.next_timer() is not None:
+        # timers of the simulation itself (session / rebalance / long-poll timers of the model) do not count: anything they could
+        # deliver to the client belongs to a request the client still waits for, and that request has a client-side timeout timer
+        if w.pending() or w.afkak_calls():
             return
         if any(i.state == "running" and i.d is not None for i in self.invocations):
             return  # waiting for the application's processor
